@@ -18,6 +18,11 @@ class Head(packet.Packet):
         formats.UInt8Field('version', default=None),
     ]
 
+    def post_dissection(self, pkt):
+        ''' remove padding from payload list after disect() completes '''
+        formats.remove_padding(self)
+        packet.Packet.post_dissection(self, pkt)
+
 
 class ContactV3(formats.NoPayloadPacket):
     ''' TCPCLv3 contact header pseudo-message. '''
